@@ -3,6 +3,7 @@ import DarkluaModel.C05.Graph
 import DarkluaModel.C05.Dag
 import DarkluaModel.C05.Complete
 import DarkluaModel.C05.Compose
+import DarkluaModel.Shared.VisitorSoundHeapV
 /-!
 # C05 — a bundle behaves like the program with its modules required normally: property theorems
 
@@ -216,52 +217,264 @@ end
 __ref_modules["<name>"] = function() <body> end …
 <entry>
 ``` -/
-def referenceProgram (mods : List (String × Src)) (entry : Src) : Block :=
-  let names := mods.map (·.1)
-  let call := fun k => Expr.call (.var "__ref_require") none .tuple [.str (strToBytes (nameAt names k))]
-  let requireFn : FnBody := .mk [.mk "name" none] false none none [] []
-    (.mk
-      [ .localAssign .loc [.mk "box" none] [.index (.var "__ref_loaded") (.var "name")],
-        .ifs [(.bin .eq (.var "box") .nil,
-          .mk [ .assign [.var "box"]
-                  [.table [.named "value" (.paren (.call (.index (.var "__ref_modules") (.var "name")) none .tuple []))]],
-                .assign [.index (.var "__ref_loaded") (.var "name")] [.var "box"] ] none)] none ]
-      (some (.ret [.field (.var "box") "value"])))
-  match entry call with
+def refRequireFn : FnBody := .mk [.mk "name" none] false none none [] []
+  (.mk
+    [ .localAssign .loc [.mk "box" none] [.index (.var "__ref_loaded") (.var "name")],
+      .ifs [(.bin .eq (.var "box") .nil,
+        .mk [ .assign [.var "box"]
+                [.table [.named "value" (.paren (.call (.index (.var "__ref_modules") (.var "name")) none .tuple []))]],
+              .assign [.index (.var "__ref_loaded") (.var "name")] [.var "box"] ] none)] none ]
+    (some (.ret [.field (.var "box") "value"])))
+
+/-- the call that stands for `require` of module `n` in the reference program -/
+def refCall (n : String) : Expr := .call (.var "__ref_require") none .tuple [.str (strToBytes n)]
+
+/-- the reference program around already rewritten module bodies and entry -/
+def referenceBlocks (mods : List (String × Block)) (entry : Block) : Block :=
+  match entry with
   | .mk stmts last =>
     .mk
       ([ .localAssign .loc [.mk "__ref_loaded" none, .mk "__ref_modules" none] [.table [], .table []],
-         .localFn .loc "__ref_require" requireFn ] ++
-       (mods.map fun (n, src) =>
-         .assign [.index (.var "__ref_modules") (.str (strToBytes n))] [.fn (.mk [] false none none [] [] (src call))]) ++
+         .localFn .loc "__ref_require" refRequireFn ] ++
+       (mods.map fun (n, body) =>
+         .assign [.index (.var "__ref_modules") (.str (strToBytes n))] [.fn (.mk [] false none none [] [] body)]) ++
        stmts)
       last
 
-/-- FULL statement of `bundle_refines` (kept visible, NOT proved): for sources that do not mention
-the reserved identifiers (`M`, `__modImpl`, the `__ref_…` names) and pairwise distinct module names
-other than `cache`, whenever the program with the textbook `require` returns values `vs` with trace
-`tr` at some level, the bundle returns the same values with the same trace at some level.
-What is proved towards it: `bundle_prelude_establishes` (the prelude for ANY number of modules
-sets up the bundle invariant `BI`), `bundle_dag_memoises` (induction over the definition order: if
-every body satisfies the frame contract `BodyOK` relative to the modules defined before it, every
-accessor call returns the module's value, runs the body at most once per run, and keeps `BI`),
-`accessor_memoises`, `definition_scoped`, `inline_dag` (the real emission order IS dependency
-order). `bodyOK_requires` (the contract HOLDS for the first-order fragment: modules that require earlier
-modules and return a literal or a required value — diamonds included). What is still missing:
-discharging `BodyOK` for arbitrary module bodies and the simulation between the bundle's heap and the
-reference program's heap. Neither follows from the generic machinery on main: stage 3
-(`Shared/VisitorSoundHeap`, `Heap/*`) relates states whose tables, closures, globals and trace are
-EQUAL and whose cells correspond up to an injection with garbage; it is a relation between two runs,
-not a frame rule (it does not say that cells/tables a body cannot reach are left unchanged), and the
-bundle and the reference program allocate different tables and closures, which needs exactly the
-invariance that `Heap/General.lean` states as `renumbering_invariance` and does not prove. The
-harness checks the statement by execution on every generated graph instead. -/
-def bundle_refines_full : Prop :=
+def referenceProgram (mods : List (String × Src)) (entry : Src) : Block :=
+  let names := mods.map (·.1)
+  let call := fun k => refCall (nameAt names k)
+  referenceBlocks (mods.map fun (n, src) => (n, src call)) (entry call)
+
+/-! ### first formulation (sources as Lean functions) — ill-posed -/
+
+/-- The first formulation of `bundle_refines`, with sources as arbitrary Lean functions
+`(Nat → Expr) → Block`. It is FALSE, but not because of the code: a Lean function can inspect the
+call expression it is handed (an *exotic* term, not a source file), see `bundle_refines_hoas_full_false`.
+Superseded by `bundle_refines_full` below, whose sources are syntax. -/
+def bundle_refines_hoas_full : Prop :=
   ∀ (N : NumOps) (ρ : ExtOracle N) (externs : List String) (M : String) (mods : List (String × Src)) (entry : Src)
     (n : Nat) (vs : List CVal) (tr : List Event),
     (mods.map (·.1)).Nodup → "cache" ∉ mods.map (·.1) →
     runProgram ρ n externs (referenceProgram mods entry) = .returned vs tr →
     ∃ m, runProgram ρ m externs (bundleProgram M mods entry) = .returned vs tr
+
+/-- an exotic "source": it returns `true` or `false` depending on the SHAPE of the call expression -/
+def exoticEntry : Src := fun call =>
+  match call 0 with
+  | .call (.var _) _ _ _ => .mk [] (some (.ret [.true]))
+  | _ => .mk [] (some (.ret [.false]))
+
+theorem bundle_refines_hoas_full_false : ¬ bundle_refines_hoas_full := by
+  intro h
+  obtain ⟨m, hm⟩ := h natOps (fun _ _ _ => []) [] "M" [] exoticEntry 1 [.bool true] [] (by simp) (by simp) rfl
+  have hb : runProgram (N := natOps) (fun _ _ _ => []) m [] (bundleProgram "M" [] exoticEntry)
+      = .returned [.bool false] [] := rfl
+  rw [hb] at hm
+  cases hm
+
+/-! ### the statement over syntactic sources -/
+
+/-- the bundler's rewriting of one node: a call of the global `require` with one string literal whose
+resolution `f` knows becomes `f lit` (`try_inline_call` through `process_expression`,
+`process_prefix_expression` and `process_statement`) -/
+def requireHook (f : List UInt8 → Option Expr) : Expr → Expr
+  | .call (.var "require") none k [.str lit] => (f lit).getD (.call (.var "require") none k [.str lit])
+  | e => e
+
+def requireStmtHook (f : List UInt8 → Option Expr) : Stmt → Stmt
+  | .callStmt c => .callStmt (requireHook f c)
+  | x => x
+
+/-- the rewriting as a `Processor` of the shared visitor model -/
+def rewriteP (f : List UInt8 → Option Expr) : Processor Unit :=
+  { expr := fun e s => (requireHook f e, s)
+    pref := fun e s => (requireHook f e, s)
+    stmt := fun x s => (requireStmtHook f x, s) }
+
+/-- a source file with its requires rewritten (the walk of `DefaultVisitor`; sources are assumed not
+to declare a local `require`, see `reservedOK`) -/
+def rewriteRequires (f : List UInt8 → Option Expr) (b : Block) : Block := (Visitor.runDefault (rewriteP f) b ()).1
+
+/-- what is bundled: module SOURCES (syntax, with their `require("…")` calls) under their accessor
+names, the entry source, and which module a require literal designates (`none`: left alone) -/
+structure BundleInput where
+  M : String
+  mods : List (String × Block)
+  entry : Block
+  res : List UInt8 → Option String
+
+def BundleInput.names (I : BundleInput) : List String := I.mods.map (·.1)
+
+/-- the bundle darklua emits -/
+def BundleInput.bundle (I : BundleInput) : Block :=
+  let f := fun lit => (I.res lit).map (accessorCall I.M)
+  assemble I.M (I.mods.map fun (n, src) => (n, rewriteRequires f src)) (rewriteRequires f I.entry)
+
+/-- the same sources run with the textbook `require` -/
+def BundleInput.reference (I : BundleInput) : Block :=
+  let f := fun lit => (I.res lit).map refCall
+  referenceBlocks (I.mods.map fun (n, src) => (n, rewriteRequires f src)) (rewriteRequires f I.entry)
+
+/-- names the sources must not mention (they belong to the generated code of one side or the other) -/
+def BundleInput.reserved (I : BundleInput) : List DName :=
+  [.ref I.M, .ref implName, .ref "__ref_loaded", .ref "__ref_modules", .ref "__ref_require"]
+
+/-- a source respects the reserved names and never declares or assigns `require` (decidable) -/
+def BundleInput.reservedOK (I : BundleInput) (b : Block) : Bool :=
+  I.reserved.all (fun x => !b.refs x) && !b.refs (.wat "require")
+
+/-- FULL statement of `bundle_refines` (kept visible, NOT proved): for module and entry SOURCES
+that respect the reserved names, pairwise distinct accessor names other than `cache`, a resolution
+that only designates bundled modules, and external functions that return no heap references:
+whenever the program with the textbook `require` returns values `vs` with trace `tr` at some level,
+the bundle returns the same values with the same trace at some level.
+
+Proved towards it: `bundle_refines_partial_nomodules` (the statement itself when no module is bundled
+— through the stage-4 lifting: `Visitor.runDefault_v`, `VkB.dropLocal`, `VkB.dropLocalFn`,
+`chain_runProgram`), `bundle_prelude_establishes`, `bundle_dag_memoises`, `bodyOK_requires`,
+`accessor_memoises`, `definition_scoped`, `inline_dag`.
+
+What is missing for modules (`meta/C05.json`, `proof_gaps`): at a rewritten call site the bundle
+evaluates `M.<n>()` and the reference `__ref_require("<n>")`. These are related only BECAUSE of what
+the local `M` (a one-sided table holding the accessor closures) and the local `__ref_require`
+(a one-sided closure over the one-sided tables `__ref_loaded`, `__ref_modules`) are bound to. The
+generic leaves of stage 4 (`VR.genE`: `SoundE Q D a b` for ALL `SRel`-related states and all
+environments related outside the dead set `D`) carry no such context: once `M` / `__ref_require` are
+dead names nothing is known about their bindings, and stage 4 has no invariant on one-sided tables
+and cells (pins exist for LEFT closures only: `Inj.pinF`, `SRel.allocClosureLeftPinned`,
+`SRel.matchClosureRight`). `Sem.HeapV.renumbering_invariance` (now a theorem) relates two runs of the
+SAME chunk on renumbered states, it does not relate two different chunks. The harness checks the
+statement by execution on every generated graph instead. -/
+def bundle_refines_full : Prop :=
+  ∀ (N : NumOps) (ρ : ExtOracle N) (_hρ : HeapV.OracleFlat ρ) (externs : List String) (I : BundleInput)
+    (n : Nat) (vs : List CVal) (tr : List Event),
+    I.names.Nodup → "cache" ∉ I.names → (∀ lit nm, I.res lit = some nm → nm ∈ I.names) →
+    I.reservedOK I.entry = true → (∀ m ∈ I.mods, I.reservedOK m.2 = true) →
+    runProgram ρ n externs I.reference = .returned vs tr →
+    ∃ m, runProgram ρ m externs I.bundle = .returned vs tr
+
+section nomodules
+open Sem.HeapV
+
+theorem requireHook_none (f : List UInt8 → Option Expr) (hf : ∀ lit, f lit = none) (e : Expr) : requireHook f e = e := by
+  unfold requireHook
+  split
+  · simp [hf]
+  · rfl
+
+theorem requireStmtHook_none (f : List UInt8 → Option Expr) (hf : ∀ lit, f lit = none) (x : Stmt) :
+    requireStmtHook f x = x := by
+  unfold requireStmtHook
+  split
+  · rw [requireHook_none f hf]
+  · rfl
+
+/-- when nothing is designated the rewriting hooks are identities, hence stage-4 hooks -/
+theorem rewriteP_hooksV (f : List UInt8 → Option Expr) (hf : ∀ lit, f lit = none) : HooksV (rewriteP f) where
+  expr := fun e s => by
+    show Chain VkE e (requireHook f e); rw [requireHook_none f hf]; exact Chain.refl _
+  pref := fun e s => by
+    show Chain VkE e (requireHook f e); rw [requireHook_none f hf]; exact Chain.refl _
+  stmt := fun x s => by
+    show Chain VkS x (requireStmtHook f x); rw [requireStmtHook_none f hf]; exact Chain.refl _
+
+theorem chain_noRef {b b' : Block} (h : Chain VkB b b') (D : List DName) (hw : WOK D) (hn : NoRefB D b) : NoRefB D b' := by
+  induction h with
+  | refl => exact hn
+  | cons hl _ ih => exact ih (hl D hw hn).2
+
+/-- the names the reference program's own prelude declares -/
+def refNamesD : List DName := [.ref "__ref_loaded", .ref "__ref_modules", .ref "__ref_require"]
+
+theorem wok_refNamesD : WOK refNamesD := by
+  intro n h; simp [refNamesD] at h
+
+/-- the reference program's prelude is dead code for an entry that does not mention its names -/
+theorem reference_nomodules (entry : Block) (hn : NoRefB refNamesD entry) {N : NumOps} (ρ : ExtOracle N)
+    (hρ : OracleFlat ρ) (n : Nat) (externs : List String) :
+    runProgram ρ n externs (referenceBlocks [] entry) = runProgram ρ n externs entry := by
+  obtain ⟨stmts, last⟩ := entry
+  have href : ∀ x ∈ refNamesD, (Block.mk stmts last).refs x = false := hn
+  have htail : ∀ nm, DName.ref nm ∈ refNamesD → Heap.tailRefs nm stmts last = false := by
+    intro nm hm
+    have := href _ hm
+    cases last with
+    | none => simpa [Heap.tailRefs, Block.refs] using this
+    | some l => simpa [Heap.tailRefs, Block.refs] using this
+  let la : Stmt := .localAssign .loc [.mk "__ref_loaded" none, .mk "__ref_modules" none] [.table [], .table []]
+  have link1 : VkB (.mk ([la] ++ .localFn .loc "__ref_require" refRequireFn :: stmts) last) (.mk ([la] ++ stmts) last) :=
+    VkB.dropLocalFn (htail "__ref_require" (by simp [refNamesD]))
+  have link2 : VkB (.mk ([] ++ la :: stmts) last) (.mk ([] ++ stmts) last) :=
+    VkB.dropLocal (allocPureAll_sound _ rfl) (by
+      intro nm hnm
+      simp [TName.name] at hnm
+      rcases hnm with h | h <;> subst h
+      · exact htail _ (by simp [refNamesD])
+      · exact htail _ (by simp [refNamesD]))
+  have := chain_runProgram (Chain.cons link1 (Chain.single link2)) ρ hρ n externs
+  simpa [referenceBlocks, la] using this.symm
+
+/-- **`bundle_refines_partial_nomodules`** — the full statement (even with equal levels) for inputs
+that bundle no module: every require is left alone, the bundle is the entry itself, and the
+reference program is the entry behind a prelude it never uses. Proved with the stage-4 lifting
+(`Visitor.runDefault_v` for the walk, `VkB.dropLocalFn` / `VkB.dropLocal` + `chain_runProgram` for
+the prelude). Hypothesis (decidable): `I.mods = []`; what is missing for modules is described at
+`bundle_refines_full`. -/
+theorem bundle_refines_partial_nomodules {N : NumOps} (ρ : ExtOracle N) (hρ : OracleFlat ρ) (externs : List String)
+    (I : BundleInput) (n : Nat)
+    (hmods : I.mods = [])
+    (hres : ∀ lit nm, I.res lit = some nm → nm ∈ I.names)
+    (hentry : I.reservedOK I.entry = true) :
+    runProgram ρ n externs I.bundle = runProgram ρ n externs I.reference := by
+  have hnone : ∀ lit, I.res lit = none := by
+    intro lit
+    cases h : I.res lit with
+    | none => rfl
+    | some nm =>
+      have := hres lit nm h
+      simp [BundleInput.names, hmods] at this
+  have hfB : ∀ lit, (fun lit => (I.res lit).map (accessorCall I.M)) lit = none := fun lit => by simp [hnone lit]
+  have hfR : ∀ lit, (fun lit => (I.res lit).map refCall) lit = none := fun lit => by simp [hnone lit]
+  -- the entry's own walk changes nothing observable, on either side
+  have hB := Visitor.runDefault_v (rewriteP_hooksV _ hfB) I.entry () ρ hρ n externs
+  have hR := Visitor.runDefault_v (rewriteP_hooksV _ hfR) I.entry () ρ hρ n externs
+  -- the rewritten entry still does not mention the reference prelude's names
+  have hnoref : NoRefB refNamesD I.entry := by
+    intro x hx
+    have h := hentry
+    simp only [BundleInput.reservedOK, BundleInput.reserved, Bool.and_eq_true, List.all_eq_true] at h
+    have := h.1 x (by
+      simp only [refNamesD, List.mem_cons, List.mem_nil_iff, or_false] at hx
+      simp only [List.mem_cons, List.mem_nil_iff, or_false]
+      rcases hx with h | h | h <;> simp [h])
+    simpa using this
+  have hchain : Chain VkB I.entry (rewriteRequires (fun lit => (I.res lit).map refCall) I.entry) :=
+    Visitor.visit_chain_v (rewriteP_hooksV _ hfR) false _ true I.entry ()
+  have hnoref' := chain_noRef hchain refNamesD wok_refNamesD hnoref
+  have hRef := reference_nomodules _ hnoref' ρ hρ n externs
+  -- assemble with no module adds nothing
+  have hasm : ∀ b : Block, assemble I.M [] b = b := by
+    intro b; cases b; simp [assemble, prelude]
+  simp only [BundleInput.bundle, BundleInput.reference, hmods, List.map_nil, hasm]
+  rw [hRef]
+  exact hB.trans hR.symm
+
+-- non-vacuity of `bundle_refines_partial_nomodules`: an entry that calls `require` (left alone: nothing is
+-- designated) and an external function; the hypotheses hold by evaluation
+def exNoModules : BundleInput :=
+  { M := "__DARKLUA_BUNDLE_MODULES", mods := [], res := fun _ => none,
+    entry := .mk [.callStmt (.call (.var "emit") none .tuple [.call (.var "require") none .tuple [.str [46, 47, 120]]])]
+      (some (.ret [.true])) }
+
+example (ρ : ExtOracle natOps) (hρ : OracleFlat ρ) (n : Nat) :
+    runProgram ρ n ["emit", "require"] exNoModules.bundle = runProgram ρ n ["emit", "require"] exNoModules.reference :=
+  bundle_refines_partial_nomodules ρ hρ _ exNoModules n rfl (by intro lit nm h; cases h) (by decide)
+
+example : OracleFlat (N := natOps) (fun _ _ _ => []) := by
+  intro name k args v hv; cases hv
+
+end nomodules
 
 /-- **`bundle_refines_partial`** (one module): the statements the bundler puts in front of the entry
 execute to exactly this: the entry's scope gains the modules identifier `M` and nothing else (no
